@@ -46,3 +46,15 @@ def cmdF (t : Tok) : String :=
     "out:" ++ (if tags.isEmpty then "UNATTRIBUTED" else ",".intercalate tags)
 
 end Wax
+
+namespace Wax
+
+/-- tags of a tree outside the fragment of a query theorem that needs the encoder to be faithful -/
+def encTags (t : Tok) : List String := if F01 t then [] else
+  let tags := f01Tags t
+  if tags.isEmpty then ["UNATTRIBUTED"] else tags
+
+def showFrag (tags : List String) : String :=
+  if tags.isEmpty then "in" else "out:" ++ ",".intercalate tags
+
+end Wax
